@@ -3,8 +3,10 @@
 Require Import Parser Render Api Shape.
 Require Lex.
 Require Import ParserTotal ParserShape2 RenderTotal RenderWfOk RenderInline RenderParamTotal RenderMarshal.
-Require LexFuel LexProof.
+Require LexFuel LexProof Cost.
+
 From Coq Require Import List String.
+Import ListNotations.
 
 (* Parse: for every oracle (Go's strconv/unicode answers), every rune classification, every default field and every
    byte string, the parser model neither reaches one of its panic sites nor exhausts its fuel 4n+4 (n = number of tokens):
@@ -51,9 +53,23 @@ Proof.
   intros o o2 cl df s e b t H. destruct (parse_wf o df _ e H) as [W _]. exact (string_no_bad_verb o2 e b t W).
 Qed.
 
+(* the cost clause in the units of the model: at most |s|+1 tokens (one Next each) for an input of |s| bytes, and the
+   shift-reduce loop, given 4|s|+8 iterations, decides every such input - and decides it exactly as Parse does. Linear in
+   the input length; what one iteration and one Next cost in Go is measured by the observer (watchdog), not proved. *)
+Theorem C01_tokens_linear : forall (cl : Lex.classes) (s : string), List.length (Api.lex_tokens cl s) <= S (String.length s).
+Proof. exact Cost.tokens_linear. Qed.
+
+Theorem C01_parse_steps_linear : forall (o : oracle) (cl : Lex.classes) (df s : string),
+  let c0 := {| rs := []; ns := [start]; toks := Api.lex_tokens cl s; pend := None |} in
+  run o (4 * String.length s + 8) df c0 <> POutOfFuel /\
+  Api.parse o cl df s = match run o (4 * String.length s + 8) df c0 with PTree e => if validate e then PTree e else PErr | r => r end.
+Proof. exact Cost.parse_steps_linear. Qed.
+
 Print Assumptions C01_parse_total.
 Print Assumptions C01_lexer_terminates.
 Print Assumptions C01_renderers_total.
 Print Assumptions C01_to_postgres_total.
 Print Assumptions C01_to_param_postgres_total.
 Print Assumptions C01_no_format_error.
+Print Assumptions C01_tokens_linear.
+Print Assumptions C01_parse_steps_linear.
